@@ -712,10 +712,14 @@ pub fn run(preset: Preset, thorough: bool, seed: u64, findings: &[Finding], only
             }
             let mut r = Rng::derive(seed, "prog-screen", k);
             let p = Profile {
-                pool: if r.chance(1, 4) { Pool::Adversarial } else { Pool::Plain },
+                pool: match r.below(8) {
+                    0 | 1 => Pool::Adversarial,
+                    2 => Pool::ReservedConcat,
+                    _ => Pool::Plain,
+                },
                 max_depth: 5,
                 max_children: 3,
-                n_elem_names: (2, 3),
+                n_elem_names: (2, 4),
                 n_attr_names: (1, 2),
                 n_docs: (1, 2),
                 p_text: 3,
@@ -729,7 +733,7 @@ pub fn run(preset: Preset, thorough: bool, seed: u64, findings: &[Finding], only
                 calm_text: true,
                 ..Profile::general()
             };
-            let p = if preset == Preset::SerdeXmlRs { Profile { pool: if p.pool == Pool::Adversarial { Pool::NoNamespace } else { Pool::Plain }, ..p } } else { p };
+            let p = if preset == Preset::SerdeXmlRs { Profile { pool: match p.pool { Pool::Adversarial => Pool::NoNamespace, Pool::ReservedConcat => Pool::ReservedConcat, _ => Pool::Plain }, ..p } } else { p };
             let docs = gen::random_history(&mut r, &p, &format!("s{}", k));
             if !precondition_ok(preset, &docs) {
                 continue;
